@@ -47,24 +47,25 @@ def simple(kind, i):
     return d
 
 
-def generic(rnd, i):
+def generic(rnd, i, back=None):
+    BACK = back or ['y', 'w']
     """any forward part, @inverse fields over y and w with one or two backward arguments, any inherit set"""
     d = {'id': i, 'cache': False, 'kind': 'generic'}
     d['fwd'] = rnd.choice(['def_p', 'def', 'def', 'inherit', 'inherit', 'none'] if rnd.random() < 0.15 else ['def_p', 'def', 'inherit'])
-    outs = rnd.sample(BACK, rnd.choice([0, 1, 1, 2, 2]))
+    outs = rnd.sample(BACK, min(len(BACK), rnd.choice([0, 1, 1, 2, 2])))
     d['defs'] = []
     for o in outs:
-        args = rnd.choice([[o], [o], ['y', 'w'], ['w', 'y'], [BACK[1 - BACK.index(o)]]])
+        args = [o] if len(BACK) == 1 else rnd.choice([[o], [o], ['y', 'w'], ['w', 'y'], [BACK[1 - BACK.index(o)]]])
         d['defs'].append({'out': o, 'fn': f'I{o}{i}', 'args': args, 'param': rnd.random() < 0.5})
     if rnd.random() < 0.3:
         d['inh'] = 'all'
     else:
-        pool = ['y', 'w'] + ([] if d['fwd'] in ('def', 'def_p') else ['x'])
+        pool = [n for n in BACK if n != 'x'] + ([] if d['fwd'] in ('def', 'def_p') else ['x'])
         d['inh'] = sorted(n for n in pool if rnd.random() < 0.55)
         if d['fwd'] == 'inherit' and 'x' not in d['inh'] and rnd.random() < 0.85:
             d['inh'] = sorted(d['inh'] + ['x'])
     # a FORWARD field named like a backward one, without an inverse: going back the name is still inherited, not overridden
-    free = [n for n in BACK if n not in outs and (d['inh'] == 'all' or n not in d['inh'])]
+    free = [n for n in BACK if n != 'x' and n not in outs and (d['inh'] == 'all' or n not in d['inh'])]
     d['fwd_extra'] = [n for n in free if rnd.random() < 0.4]
     return d
 
@@ -73,18 +74,19 @@ def make(d):
     if d['cache']:
         return CacheToRam()
     i = d['id']
-    kw = {}
+    items = []
     if d['fwd'] == 'def_p' or any(x['param'] for x in d['defs']):
-        kw['_p'] = Function(named(f'P{i}'), 'x')
+        items.append(('_p', Function(named(f'P{i}'), 'x')))
     if d['fwd'] == 'def_p':
-        kw['x'] = Function(named(f'F{i}'), 'x', '_p')
+        items.append(('x', Function(named(f'F{i}'), 'x', '_p')))
     elif d['fwd'] == 'def':
-        kw['x'] = Function(named(f'F{i}'), 'x')
+        items.append(('x', Function(named(f'F{i}'), 'x')))
     for n in d.get('fwd_extra', []):
-        kw[n] = Function(named(f'G{n}{i}'), 'x')
+        items.append((n, Function(named(f'G{n}{i}'), 'x')))
     for x in d['defs']:
-        kw[x['out']] = inverse(Function(named(x['fn']), *x['args'], *([Parameter('_p')] if x['param'] else [])))
-    return Transform(**kw, __inherit__=True if d['inh'] == 'all' else list(d['inh']))
+        items.append((x['out'], inverse(Function(named(x['fn']), *x['args'], *([Parameter('_p')] if x['param'] else [])))))
+    from connectome.interface.metaclasses import TransformBase
+    return TransformBase(items, inherit=True if d['inh'] == 'all' else tuple(d['inh']))
 
 
 def attempt(fn):
@@ -119,7 +121,20 @@ def main():
                 layers[0] = generic(rnd, 0)
             outs = rnd.choice([['y'], ['y', 'w'], ['y', 'w'], ['w', 'y'], ['w']])
             final = rnd.choice([outs, outs, [rnd.choice(outs)]])
-        rec = {'layers': layers, 'outs': outs, 'final': final}
+        same = rnd.random() < 0.3
+        if same:
+            # the usual way to decorate: the output of f has the name of its input (`layer._decorate('x')`), outputs left to default
+            layers = []
+            for i in range(n):
+                if rnd.random() < 0.25 and i > 0:
+                    layers.append(simple('cache', i))
+                else:
+                    d = generic(rnd, i, back=['x'])
+                    if d['fwd'] == 'none':
+                        d['fwd'] = 'inherit'
+                    layers.append(d)
+            outs, final = ['x'], ['x']
+        rec = {'layers': layers, 'outs': outs, 'final': final, 'same_name': same}
         try:
             objs = [make(d) for d in layers]
             ds = objs[0] if n == 1 else Chain(*objs)
@@ -144,9 +159,26 @@ def main():
                 v = r['val']
                 r = dict(r, val=[v] if single_final else v['t'])
             return r
-        rec['decorate'] = norm(attempt(lambda: ds._decorate('x', o_arg, f_arg)(f)('x0')))
-        rec['wrap'] = norm(attempt(lambda: ds._wrap(f, 'x', o_arg, f_arg)('x0')))
-        rec['loopback'] = norm(attempt(lambda: ds._loopback(f, 'x', o_arg)._compile(f_arg)('x0')))
+        if same and rnd.random() < 0.6:
+            # outputs and final left to their defaults
+            single_out = single_final = True
+            rec['single'] = [True, True]
+            rec['defaults'] = True
+
+            def f(x, fs=fs):      # noqa: F811
+                sympool.CALLS.append(('f', (x,), ()))
+                return fs[0](x)
+            f.__name__ = 'f'
+
+            def norm(r):          # noqa: F811
+                return dict(r, val=[r['val']]) if 'val' in r else r
+            rec['decorate'] = norm(attempt(lambda: ds._decorate('x')(f)('x0')))
+            rec['wrap'] = norm(attempt(lambda: ds._wrap(f, 'x')('x0')))
+            rec['loopback'] = norm(attempt(lambda: ds._loopback(f, 'x')._compile('x')('x0')))
+        else:
+            rec['decorate'] = norm(attempt(lambda: ds._decorate('x', o_arg, f_arg)(f)('x0')))
+            rec['wrap'] = norm(attempt(lambda: ds._wrap(f, 'x', o_arg, f_arg)('x0')))
+            rec['loopback'] = norm(attempt(lambda: ds._loopback(f, 'x', o_arg)._compile(f_arg)('x0')))
         cases.append(rec)
     dump({'cases': cases}, a.out)
 
